@@ -212,7 +212,8 @@ type vfShape struct{ n, L int }
 // vfChoose picks a shape and its variant. Short rows (L <= 11) are run in every combination of
 // alphabet family (and case policy when cased); long rows in one combination derived from the
 // shape (unless full), because the cost of a case grows with (n*L)^2 while family and case do not
-// interact with line wrapping. The name rotation is derived from the shape.
+// interact with line wrapping; the long nucleotide cases also pin residue (0,0) to a nucleotide-only
+// letter (vfBuildPin). The name rotation is derived from the shape.
 func vfChoose(shapes []vfShape, cased, full bool) (n, L, mode, rot, cs int) {
 	sh := shapes[nondetRange(0, len(shapes)-1)]
 	n, L = sh.n, sh.L
@@ -570,7 +571,6 @@ func H_C02_autodetect() {
 const (
 	fFasta = iota
 	fPhylip
-	fPhylipStrict
 	fNexus
 	fClustal
 	fStockholm
@@ -616,6 +616,14 @@ func vfNamesRT(format, maxlen int, alnum bool) {
 	if format == fStockholm {
 		assume(name != "//") // end-of-alignment marker
 	}
+	if format == fNexus {
+		// a name that spells a lexer keyword is rejected (demonstrated with concrete names in
+		// H_C02_nexus_kwname; with a symbolic name the parser's error message cannot be formatted
+		// by the engine)
+		for _, kw := range vfNexusKeywords {
+			assume(!vfIsWordCI(b, kw))
+		}
+	}
 	names := []string{name, "zz9"}
 	rows := []string{"ACGT", "TTGA"}
 	al := align.NewAlign(align.NUCLEOTIDS)
@@ -634,8 +642,6 @@ func vfNamesRT(format, maxlen int, alnum bool) {
 		got, err = fasta.NewParser(vfReader(fasta.WriteAlignment(al))).Parse()
 	case fPhylip:
 		got, err = phylip.NewParser(vfReader(phylip.WriteAlignment(al, false, false, false)), false).Parse()
-	case fPhylipStrict:
-		got, err = phylip.NewParser(vfReader(phylip.WriteAlignment(al, true, false, false)), true).Parse()
 	case fNexus:
 		got, err = nexus.NewParser(vfReader(nexus.WriteAlignment(al))).Parse()
 	case fClustal:
@@ -648,14 +654,36 @@ func vfNamesRT(format, maxlen int, alnum bool) {
 }
 
 // H_C02_names_alnum: names made of letters, digits and '_' survive the round trip in every format.
-// bounds: format in {fasta, phylip relaxed, phylip strict, nexus, clustal, stockholm}; first name = 1..3 symbolic characters of [A-Za-z0-9_], second name "zz9"; 2 x 4 concrete nucleotide rows
-// outside: longer names, punctuation (H_C02_names_punct)
+// bounds: format in {fasta, phylip relaxed, nexus, clustal, stockholm}; first name = 1..3 symbolic characters of [A-Za-z0-9_], second name "zz9"; 2 x 4 concrete nucleotide rows; Nexus: names spelling a lexer keyword excluded (H_C02_nexus_kwname)
+// outside: longer names, punctuation (H_C02_names_punct), strict Phylip (its writer pads names with fmt's %-10s, which the engine cannot apply to a symbolic string; pool names cover it)
 func H_C02_names_alnum() { vfNamesRT(nondetRange(fFasta, fStockholm), 3, true) }
 
 // H_C02_names_punct: names made of printable punctuation (without the format's own delimiters) survive the round trip.
 // bounds: same formats; first name = 1..2 symbolic printable non-alphanumeric characters, excluding '>' (FASTA), [ ] ; = ' " (Nexus), '#' and the name "//" (Stockholm)
 // outside: longer names, blanks, bytes >= 0x80
 func H_C02_names_punct() { vfNamesRT(nondetRange(fFasta, fStockholm), 2, false) }
+
+// H_C02_nexus_kwname: a sequence name that spells a Nexus lexer keyword (any case) does not survive the round trip.
+// bounds: first name in {end, GAP, Data, matrix}, second name s1; 2 x 4 concrete nucleotide rows
+// outside: other names
+func H_C02_nexus_kwname() {
+	names := []string{vfPick2([]string{"end", "GAP", "Data", "matrix"}), "s1"}
+	rows := []string{"ACGT", "TTGA"}
+	al := align.NewAlign(align.NUCLEOTIDS)
+	orig := make([][]uint8, 2)
+	for i := range names {
+		orig[i] = []uint8(rows[i])
+		if err := al.AddSequence(names[i], rows[i], ""); err != nil {
+			panic("harness: cannot build alignment: " + err.Error())
+		}
+	}
+	c := vfCase{al: al, names: names, orig: orig, L: 4, mode: vfNt}
+	got, err := nexus.NewParser(vfReader(nexus.WriteAlignment(al))).Parse()
+	verifReach("nexus keyword name")
+	vfSame(c, got, err)
+}
+
+func vfPick2(list []string) string { return list[nondetRange(0, len(list)-1)] }
 
 // H_C02_dbg: scratch.
 // bounds: scratch
